@@ -51,23 +51,33 @@ class FileSystemLoader(BaseLoader):
         """
         template_path = Path(template_name)
 
+        if (
+            template_path.is_absolute()
+            or os.path.pardir in template_path.parts
+            or not template_path.name
+        ):
+            raise TemplateNotFoundError(template_name)
+
         if self.ext and not template_path.suffix:
             template_path = template_path.with_suffix(self.ext)
 
-        if template_path.is_absolute() or os.path.pardir in template_path.parts:
-            raise TemplateNotFoundError(template_name)
-
         for path in self.search_path:
             source_path = path.joinpath(template_path)
-            if not source_path.exists():
+            try:
+                if source_path.is_file():
+                    return source_path
+            except OSError:
+                # A name the file system can't handle, like one that is too long.
                 continue
-            return source_path
         raise TemplateNotFoundError(template_name)
 
     def _read(self, source_path: Path) -> tuple[str, float]:
-        with source_path.open(encoding=self.encoding) as fd:
-            source = fd.read()
-        return source, source_path.stat().st_mtime
+        try:
+            with source_path.open(encoding=self.encoding) as fd:
+                source = fd.read()
+            return source, source_path.stat().st_mtime
+        except OSError as err:
+            raise TemplateNotFoundError(str(source_path)) from err
 
     def get_source(
         self,
@@ -88,12 +98,16 @@ class FileSystemLoader(BaseLoader):
 
     @staticmethod
     def _uptodate(source_path: Path, mtime: float) -> bool:
-        return mtime == source_path.stat().st_mtime
+        try:
+            return mtime == source_path.stat().st_mtime
+        except OSError:
+            # The file has gone. Loading it again will say so.
+            return False
 
     @staticmethod
     async def _uptodate_async(source_path: Path, mtime: float) -> bool:
         return await asyncio.get_running_loop().run_in_executor(
-            None, lambda: mtime == source_path.stat().st_mtime
+            None, FileSystemLoader._uptodate, source_path, mtime
         )
 
     async def get_source_async(
